@@ -48,7 +48,8 @@ std::string valid_events(i64 a, i64 b)
   // the real writer's framing over real generator events
   static const char * N[] = {"Co60", "Cs137+Ba137m", "Bi214+Po214", "K40", "Tl208", "Am241"};
   static std::map<std::string, std::string> cache;
-  std::string key = std::to_string(a % 6) + ":" + std::to_string(b % 4);
+  a = ((a % 6) + 6) % 6; b = ((b % 4) + 4) % 4; // the content below is a function of (a, b): normalise BEFORE using them (the cache key did, the streams did not)
+  std::string key = std::to_string(a) + ":" + std::to_string(b);
   auto it = cache.find(key);
   if (it != cache.end()) return it->second;
   bxdecay0::decay0_generator g;
